@@ -134,7 +134,11 @@ def norm_case(draw, tier="quick"):
     shape = draw(gen.shape2(1, 16))
     cplx = draw(st.booleans())
     a = draw(gen.complex_array(shape, maxmag=1e3)) if cplx else draw(gen.real_array(shape, -1e3, 1e3))
-    return {"a": a, "power": draw(gen.pos_log(1e-6, 1e6)), "default": draw(st.sampled_from([False, False, True]))}
+    form = draw(st.sampled_from(["array", "array", "int", "list"]))
+    if form != "array" and not cplx:
+        a = np.round(a).astype(np.int64)
+    return {"a": a, "power": draw(gen.pos_log(1e-6, 1e6)), "default": draw(st.sampled_from([False, False, True])),
+            "form": form}
 
 
 @hyp("C05", "normalize_power", lambda tier: norm_case(tier),
@@ -149,8 +153,10 @@ def normalize_power(case, ctx):
     ctx.tag("complex" if np.iscomplexobj(a) else "real", "default_power" if case["default"] else None)
     ctx.nontrivial_if(np.count_nonzero(a) >= 2)
     a0 = a.copy()
+    arg = a.tolist() if case.get("form") == "list" else a
+    ctx.tag("form:" + case.get("form", "array") + ("/" + a.dtype.kind))
     with lentil_call("C05.normalize", "normalize_power"):
-        out = lentil.normalize_power(a) if case["default"] else lentil.normalize_power(a, p)
+        out = lentil.normalize_power(arg) if case["default"] else lentil.normalize_power(arg, p)
     got = float(np.sum(np.abs(out) ** 2))
     if abs(got - p) > 1e-12 * p:
         raise Violation("C05.normalize.power", f"power {got} != target {p}")
